@@ -839,8 +839,11 @@ func c09lives(rep *vh.Report, r *vh.RNG, genv *gateEnv) {
 				break
 			}
 		}
+		evCh := node.Events() // (read once, here: the next life's Initialize replaces the channel in the same Node value)
+		drained := make(chan struct{})
 		go func() {
-			for range node.Events() {
+			defer close(drained)
+			for range evCh {
 			}
 		}()
 		n := 40
@@ -855,6 +858,7 @@ func c09lives(rep *vh.Report, r *vh.RNG, genv *gateEnv) {
 		}
 		tr.WaitWrites(n, time.Second)
 		node.Close()
+		<-drained
 		var emitted []c09emitted
 		for _, w := range tr.Writes() {
 			emitted = append(emitted, c09emitted{wire: w.Data})
